@@ -42,8 +42,117 @@ LAWS = [("cardillo/force_laws/spring.py", "Spring"), ("cardillo/force_laws/kelvi
 WANT = "self.l_ref = self.subsystem.l(self.subsystem.t0, self.subsystem.q0)"
 
 
+INIT_SUFFIXES = ("q0", "u0")
+R7_DIRS = ("cardillo/interactions/", "cardillo/constraints/", "cardillo/force_laws/", "cardillo/actuators/")
+R7_BODIES = [("cardillo/discrete/point_mass.py", "PointMass"), ("cardillo/discrete/rigid_body.py", "RigidBody")]
+
+
+def r7_initial_dtype(ctx):
+    """The default reference length is evaluated on the RAW initial coordinates of the subsystems (l(t0, q0) at assembly), forces and
+    energies later on System.q0.  Both have to be the same real numbers:
+      (a) a body stores user-supplied q0 / u0 as floating point (np.asarray(q0, dtype=float)); an integer array survives np.asarray,
+          is truncated by the in-place normalisation and breaks Exp_SO3_quat;
+      (b) where initial coordinates of several subsystems are joined, the join promotes (np.concatenate / hstack) - a buffer
+          allocated with the dtype of ONE part truncates the others."""
+    rep = ctx.rep
+    def init_chain(e, local):
+        """dotted name ending in q0/u0 that e (a Name or attribute chain, through single-assignment locals) stands for"""
+        for _ in range(4):
+            while isinstance(e, ast.Subscript):
+                e = e.value
+            d = dotted(e)
+            if d and d.split(".")[-1] in INIT_SUFFIXES and "." in d:
+                return d
+            if isinstance(e, ast.Name) and len(local.get(e.id, [])) == 1:
+                e = local[e.id][0]
+                continue
+            return None
+        return None
+    raw_bodies = []
+    for rel, cname in R7_BODIES:
+        cls = ctx.repo.get(rel, cname)
+        init = next((m for m in cls.body if isinstance(m, ast.FunctionDef) and m.name == "__init__"), None)
+        if init is None:
+            raise AnalysisError(f"{rel}:{cname}.__init__ vanished")
+        params = {a.arg for a in init.args.args}
+        for attr in INIT_SUFFIXES:
+            if attr not in params:
+                continue
+            st = [n for n in ast.walk(init) if isinstance(n, ast.Assign) and any(dotted(t) == f"self.{attr}" for t in n.targets)]
+            if not st:
+                raise AnalysisError(f"{rel}:{cname}.__init__: store to self.{attr} not found")
+            C = f"{rel}:{cname}.__init__"
+            conv = [c for c in ast.walk(st[0].value) if isinstance(c, ast.Call) and (dotted(c.func) or "").split(".")[-1] in ("asarray", "array", "asfarray", "astype")
+                    and any(isinstance(x, ast.Name) and x.id == attr for x in ast.walk(c))]
+            raw = [x for x in ast.walk(st[0].value) if isinstance(x, ast.Name) and x.id == attr]
+            def floaty(c):
+                last = (dotted(c.func) or "").split(".")[-1]
+                if last == "asfarray":
+                    return True
+                vals = [k.value for k in c.keywords if k.arg == "dtype"] + ([c.args[0]] if last == "astype" and c.args else []) + (c.args[1:2] if last in ("asarray", "array") else [])
+                return any(norm_src(v) in ("float", "np.float64", "np.double", "'float64'", "'float'", "np.float_") for v in vals)
+            if conv and all(floaty(c) for c in conv):
+                rep.ok("C09.R7", C, f"self.{attr} = {norm_src(conv[0])}: user data stored as floating point")
+            elif raw:
+                raw_bodies.append(f"{cname}.{attr}")
+                rep.bad("C09.R7", C, st[0], f"user-supplied `{attr}` is stored with whatever dtype it has: an integer array (q0 = np.array([0, 0, 0, 1, 0, 0, 0])) reaches "
+                        "l(t0, q0) of a default reference length and Exp_SO3_quat's in-place normalisation (UFuncTypeError at assembly), and in-place updates truncate",
+                        f"{rel}:{st[0].lineno}")
+    nfn = 0
+    for rel, mod in sorted(ctx.repo.modules.items()):
+        if not rel.startswith(R7_DIRS):
+            continue
+        for q, fn in mod.defs().items():
+            if not isinstance(fn, ast.FunctionDef):
+                continue
+            nfn += 1
+            local = {}
+            for n in ast.walk(fn):
+                if isinstance(n, ast.Assign) and len(n.targets) == 1 and isinstance(n.targets[0], ast.Name):
+                    local.setdefault(n.targets[0].id, []).append(n.value)
+            C = f"{rel}:{q}"
+            for n in ast.walk(fn):
+                if not (isinstance(n, ast.Assign) and len(n.targets) == 1 and isinstance(n.value, ast.Call)):
+                    continue
+                last = (dotted(n.value.func) or "").split(".")[-1]
+                carrier = None
+                if last in ("zeros", "empty", "ones", "full"):
+                    for k in n.value.keywords:
+                        if k.arg == "dtype" and isinstance(k.value, ast.Attribute) and k.value.attr == "dtype":
+                            carrier = init_chain(k.value.value, local)
+                elif last in ("zeros_like", "empty_like", "ones_like") and n.value.args:
+                    carrier = init_chain(n.value.args[0], local)
+                if carrier is None:
+                    continue
+                tgt = norm_src(n.targets[0])
+                others = []
+                for w in ast.walk(fn):
+                    if isinstance(w, (ast.Assign, ast.AugAssign)):
+                        ts = w.targets if isinstance(w, ast.Assign) else [w.target]
+                        if any(isinstance(t, ast.Subscript) and norm_src(t.value) == tgt for t in ts):
+                            for x in ast.walk(w.value):
+                                if isinstance(x, (ast.Name, ast.Attribute)):
+                                    c2 = init_chain(x, local)
+                                    if c2 and c2 != carrier:
+                                        others.append((w, c2))
+                if others and not raw_bodies:
+                    w, c2 = others[0]
+                    rep.note(f"C09.R7: {C}: `{tgt}` is allocated with the dtype of `{carrier}` and filled from `{c2}` as well; harmless as long as every body stores its "
+                             "initial coordinates as float (checked above), since all parts then have one dtype")
+                elif others:
+                    w, c2 = others[0]
+                    rep.bad("C09.R7", C, n, f"`{tgt}` is allocated with the dtype of `{carrier}` and then filled from `{c2}`: initial coordinates given as integers for the first "
+                            "subsystem truncate the second subsystem's coordinates, so the default l_ref = l(t0, q0) is evaluated at a different configuration than "
+                            f"the assembled System.q0 and the element is pre-stressed (bodies that keep an integer dtype: {', '.join(raw_bodies)})", f"{rel}:{n.lineno}")
+                else:
+                    rep.ok("C09.R7", C, f"`{tgt}` typed by `{carrier}` is filled from it alone")
+    rep.note(f"C09.R7: {nfn} functions of interactions / constraints / force laws / actuators scanned for buffers typed by initial coordinates")
+
+
 def run(ctx):
     rep = ctx.rep
+    rep.rule("C09.R7", "initial coordinates reach the default reference length as floating point and un-truncated", 4)
+    r7_initial_dtype(ctx)
     rep.rule("C09.R1", "subsystem protocol on the default l_ref path", 12)
     rep.rule("C09.R2", "sibling idiom of the default reference length", 6)
     rep.rule("C09.R3", "length enters force/energy only through (l - ... - l_ref)", 6)
@@ -307,7 +416,22 @@ MUTANTS += [
          old="    def assembler_callback(self):\n        self.n_full_rotations = 0\n        self.previous_quadrant = 1\n",
          new="    def assembler_callback(self):\n        if not hasattr(self, \"n_full_rotations\"):\n            self.n_full_rotations = 0\n            self.previous_quadrant = 1\n", expect="C09.R6"),
 ]
+TPI = "cardillo/interactions/two_point_interaction.py"
+MUTANTS += [
+    dict(id="c09-r7-seed", canary=True, what="[seeded by sub-agent, on the tree before fix F46] TwoPointInteraction joins the subsystems' q0 in a buffer typed by the first one while bodies keep integer q0", file=TPI,
+         edits=[(TPI, "        self.q0 = np.concatenate((q01[local_qDOF1], q02[local_qDOF2]))\n",
+                 "        self.q0 = np.zeros(self._nq, dtype=q01.dtype)\n        self.q0[: self._nq1] = q01[local_qDOF1]\n        self.q0[self._nq1 :] = q02[local_qDOF2]\n"),
+                ("cardillo/discrete/point_mass.py", "np.asarray(q0, dtype=float)", "np.asarray(q0)")], expect="C09.R7"),
+    dict(id="c09-r7-1", what="RigidBody keeps the dtype of a user-supplied q0 (original defect F46)", file="cardillo/discrete/rigid_body.py",
+         old="            else np.asarray(q0, dtype=float)\n", new="            else np.asarray(q0)\n", expect="C09.R7"),
+]
 NEUTRAL = [
+    dict(id="c09-n-r7b", canary=True, what="TwoPointInteraction joins q0 in a buffer typed by the first part (harmless since bodies store float: the sub-agent's change after fix F46)", file=TPI,
+         old="        self.q0 = np.concatenate((q01[local_qDOF1], q02[local_qDOF2]))\n",
+         new="        self.q0 = np.zeros(self._nq, dtype=q01.dtype)\n        self.q0[: self._nq1] = q01[local_qDOF1]\n        self.q0[self._nq1 :] = q02[local_qDOF2]\n"),
+    dict(id="c09-n-r7", what="TwoPointInteraction joins q0 in a float buffer", file=TPI,
+         old="        self.q0 = np.concatenate((q01[local_qDOF1], q02[local_qDOF2]))\n",
+         new="        self.q0 = np.zeros(self._nq)\n        self.q0[: self._nq1] = q01[local_qDOF1]\n        self.q0[self._nq1 :] = q02[local_qDOF2]\n"),
     dict(id="c09-n-r5", canary=True, what="MaxwellElement.h normalises with ravel()", file=MX,
          old="        return self.force(t, q, u) * self.subsystem.W_l(t, q[1:]).reshape(self._nu)", new="        return self.force(t, q, u) * self.subsystem.W_l(t, q[1:]).ravel()"),
     dict(id="c09-n1", canary=True, what="Spring energy written with a local", file=SP,
